@@ -7,8 +7,7 @@ META = {
     "level": "proof",
     "trusted_base": ["contracts/gate_contracts.h (exit-status spec read off nano_virt --run)"] ,
     "assumptions": list(c10_exit.EXIT_META.get("assumptions", [])) + [
-        "C10.rt / C10.idem are BOUNDED stand-ins on the real nvm_serialize -> nvm_deserialize (nothing replaced, real CRC): module shape <= 1 string of <= 2 bytes, <= 3 code bytes, <= 1 function, <= 1 debug entry, <= 1 import with <= 1 parameter; never counted as proved",
-        "unbounded-size round trip is NOT decided; byte equality of the blob embedded by the wrapper generator is NOT decided",
+        "the serialize/deserialize round trip is NOT decided (a bounded self-composition harness exists, harness/nvm_rt_h.c, but exhausts memory: see obligations/c10.py); byte equality of the blob embedded by the wrapper generator is NOT decided",
     ],
     "undecided_part": "round trip for modules of arbitrary size; output equality of the three ways of running (all print through the same TRAP_PRINT branch: structural, no obligation); wrapper blob embedding",
 }
@@ -17,11 +16,8 @@ SHAPE = "B(module shape: <=1 string(<=2 bytes), <=3 code bytes, <=1 function, <=
 
 
 def obligations(repo):
-    obs = c10_exit.exit_obligations("C10", repo)
-    for e, oid in (("h_rt", "C10.rt"), ("h_idem", "C10.idem")):
-        obs.append(dict(id=oid, prop="C10", harness=RT, entry=e, include_repo=["src", "src/nanoisa"],
-                        unwindset=["crc32_init.0:257", "crc32_init.1:257", "nvm_crc32.0:160"], unwind=8, object_bits=10,
-                        strength=SHAPE, functions=["nvm_serialize", "nvm_deserialize", "nvm_crc32"], timeout=3600,
-                        checks=["--bounds-check", "--pointer-check"], tier="thorough",   # the real CRC over ~110 symbolic bytes on both sides: > 15 min
-                        must_have=[r"C10\.", r"COVER"], min_checks=100))
-    return obs
+    # C10.rt / C10.idem / C10.rt.fields.* (harness/nvm_rt_h.c: real nvm_serialize -> nvm_deserialize on a bounded module
+    # shape) are NOT registered: memcpy with a symbolic length into a symbolic-size buffer exhausts 12 GB in propositional
+    # reduction even for <= 3-byte payloads, with or without the real CRC (measured: 5 section kinds x 900 s / OOM).
+    # The round trip is therefore not decided by any obligation; the harness is kept for a later session.
+    return c10_exit.exit_obligations("C10", repo)
